@@ -20,11 +20,14 @@ PROP = dict(
                    'zero_never_rw_partial (a Map that succeeds changes one word and it is not a writable zero-frame entry), '
                    'otherwise_panics (if pageFaultHandler returns at all, the leaf entry was present, read-only and copy-on-write, '
                    'a frame was available and the temporary mapping was not refused - for every state, address and error code), '
-                   'gpf_panics, facts_current. The copy-on-write success path (private copy with equal contents, shared frame and '
-                   'all other mappings untouched, flush) is checked by the oracle on the real code\'s memory after every fault and '
-                   'by model = code on every generated case.',
-        level_note='Partial: cow_private_copy (exact post-state of a recovered fault) and the induction of zero_never_rw over whole '
-                   'histories are NOT proved in Lean; they are carried by the correspondence run (141+ recovered faults per quick run, '
+                   'cow_private_copy_partial (symbolic execution of the whole recovered fault: the allocator\'s frame is consumed and holds exactly '
+                   'the old frame\'s 512 words, the leaf entry becomes old flags - CoW + Present|RW with that frame, the shared frame and every '
+                   'other word of memory except the temporary page\'s entry are unchanged, the temporary page ends unmapped, flushes = '
+                   'temp, temp, page), gpf_panics, facts_current. The same clauses are evaluated by the oracle on the real code\'s memory '
+                   'after every fault.',
+        level_note='Partial: cow_private_copy is proved under the extra hypothesis that the temporary-mapping page\'s tables already exist (true '
+                   'after the first MapTemporary); the case where they must be created, and the induction of zero_never_rw over whole '
+                   'histories, are NOT proved in Lean; they are carried by the correspondence run (141+ recovered faults per quick run, '
                    'all flag subsets on the leaf, missing/odd upper levels, allocator and temporary-mapping failures at each step, '
                    'several pages sharing the zero frame faulted in random order) and the oracle clauses cow-entry-private-rw, '
                    'cow-copy-equal-contents, cow-shared-frame-untouched, cow-others-untouched, cow-flush, otherwise-panics, '
